@@ -311,13 +311,27 @@ def run_parallax(block, ctx):
 
 # -- one Earth object re-set to other ellipsoids ------------------------------------------------------
 
-def earth_views(e):
+# two more ellipsoids for the histories: same figure as a built-in one, other rotation rate
+HIST_ELLS = dict(ELLS)
+HIST_ELLS["WGS84_sidereal"] = lambda: Ellipsoid(WGS84._a, WGS84._f, 2.0 * math.pi / 86164.0905)
+HIST_ELLS["f01_slow"] = lambda: Ellipsoid(6378000.0, 0.01, 3.5e-5)
+
+
+def earth_views(e, other=None):
+    """26 answers of an Earth object; with ``other`` (a second, already built Earth on a different
+    ellipsoid) every single call is preceded by the same call on that object, so that anything the
+    class shares between instances is overwritten just before it is needed."""
     v = []
+
+    def ask(name, *args):
+        if other is not None:
+            getattr(other, name)(*args)
+        return getattr(e, name)(*args)
     for lat in (0.0, 33.356, -66.5, 90.0):
-        v += [e.rho(lat), e.rho_sinphi(lat, 1706), e.rho_cosphi(lat, 1706), e.rp(lat), e.rm(lat),
-              e.linear_velocity(lat)]
-    v.append(e.distance(2.337, 48.836, -77.065, 38.92)[0])
-    v.append(e.distance(0.0, 0.0, 0.0, 45.0)[0])
+        v += [ask("rho", lat), ask("rho_sinphi", lat, 1706), ask("rho_cosphi", lat, 1706), ask("rp", lat),
+              ask("rm", lat), ask("linear_velocity", lat)]
+    v.append(ask("distance", 2.337, 48.836, -77.065, 38.92)[0])
+    v.append(ask("distance", 0.0, 0.0, 0.0, 45.0)[0])
     return v
 
 
@@ -326,17 +340,20 @@ def check_earth_history(case):
     its answers must be those of a fresh Earth on the current ellipsoid."""
     hist = case["history"]
     out = []
-    e = Earth(ELLS[hist[0]]())
+    e = Earth(HIST_ELLS[hist[0]]())
+    bystander = Earth(HIST_ELLS["f005" if hist[0] != "f005" else "f01"]())
     for k, name in enumerate(hist):
         if k:
             try:
-                e.set(ELLS[name]())
+                e.set(HIST_ELLS[name]())
             except Exception as ex:
                 out.append("Earth.set(%s) raised %r" % (name, ex))
                 break
         try:
+            exp = earth_views(Earth(HIST_ELLS[name]()))
             got = earth_views(e)
-            exp = earth_views(Earth(ELLS[name]()))
+            if got == exp:
+                got = earth_views(e, other=bystander)      # interleaved with a second Earth object
         except Exception as ex:
             out.append("views after %r raised %r" % (hist[:k + 1], ex))
             break
@@ -370,7 +387,7 @@ def clauses(tier):
                                       for la in (-90, -60, -30, -1e-7, 0, 30, 60, 89.999, 90)]))
     ell = [{"ellipsoid": en, "lat": lat} for en in ELLS for lat in lats]
     hists = [{"history": list(h)} for n in ((2, 3, 4) if tier == "thorough" else (2, 3))
-             for h in itertools.product(sorted(ELLS), repeat=n)]
+             for h in itertools.product(sorted(HIST_ELLS), repeat=n)]
     return [
         Clause("earth_history", chunks(hists, 8), run_earth_history, check_earth_history, floor=100, shape="H"),
         Clause("ellipsoid", chunks(ell, 8), run_ellipsoid,
